@@ -230,7 +230,19 @@ class CallMixin:
             st.written.add(key)
         res = None
         if c.returns is not None:
+            cache_key = None
+            if c.pure and not c.modifies and not self.binders:
+                # a pure function of its arguments and the heap: the same arguments in the same heap give the
+                # same (unknown) value, so two calls can be related (e.g. a call in the code and one in a spec)
+                cache_key = (qual, tuple(sorted((k, v.z.get_id()) for k, v in env.items()
+                                              if v is not None and z3.is_expr(v.z))),
+                             tuple(sorted((k, a.get_id()) for k, a in st.heap.items())))
+                hit = self.pure_cache.get(cache_key)
+                if hit is not None:
+                    return hit
             res = self.fresh_val(c.returns, "res_%s" % qual.replace(".", "_"))
+            if cache_key is not None:
+                self.pure_cache[cache_key] = res
         env2 = dict(env)
         if res is not None:
             env2["result"] = res
